@@ -292,6 +292,31 @@ def rule_roundtrip(ctx, repo, defaults):
     ctx.check(ok, "C20.save", "System.collect_config", "system + all routines + all models", "saved configuration no longer covers system, routines and models", c.W())
 
 
+def rule_update_atomic(ctx, repo):
+    """'values outside the declared alternatives are rejected': a rejected update must not leave the rejected value in effect.
+    Config.update either validates before it commits, or restores the previous values when check() raises."""
+    u = F.method(repo, "Config", "update", COMMON)
+    sets = u.calls("self._set")
+    chk = u.calls("self.check")
+    if not sets or not chk:
+        ctx.undecided("C20.alternatives", "Config.update/atomic", "set/check calls not recognised", u.W())
+        return
+    check_first = u.before(chk, sets)[0]
+    # rollback idiom: check() inside a try whose handler writes the fields back and re-raises
+    rollback = False
+    for t in [x for x in ast.walk(u.fn) if isinstance(x, ast.Try)]:
+        if any(isinstance(c, ast.Call) and dotted(c.func) == "self.check" for b in t.body for c in ast.walk(b)):
+            for h in t.handlers:
+                writes = any(isinstance(x, (ast.Assign, ast.Delete)) or (isinstance(x, ast.Call) and (dotted(x.func) or "").split(".")[-1] in
+                                                                           ("_set", "update", "pop", "__setitem__")) for b in h.body for x in ast.walk(b))
+                reraises = any(isinstance(x, ast.Raise) for b in h.body for x in ast.walk(b))
+                if writes and reraises:
+                    rollback = True
+    ctx.check(check_first or rollback, "C20.alternatives", "Config.update/atomic", "a rejected update leaves the previous values in effect",
+              "update() stores the new values and then calls check(): when check() raises, the rejected value stays in the configuration "
+              "and is what the routine uses from then on", u.W(sets[0]))
+
+
 def _refreshing(call):
     """as_dict(...) call passes refresh=True"""
     if call.args and isinstance(call.args[0], ast.Constant) and call.args[0].value is True:
@@ -375,7 +400,7 @@ def run(ctx):
     ctx.rule("C20.ownership", "rc parser object is fresh per load (it is mutated in place by the option merge)", 1)
     ctx.rule("C20.precedence", "Config._add skips loaded keys; load reads own section; update overwrites then checks; options overwrite the file", 4)
     ctx.rule("C20.coercion", "coercion chain int -> float -> unchanged", 1)
-    ctx.rule("C20.alternatives", "alternatives enforced by check()", 1)
+    ctx.rule("C20.alternatives", "alternatives enforced by check(); a rejected update is rolled back", 2)
     ctx.rule("C20.options", "malformed option => raise; sections created iff absent; merge before first load; default_config", 5)
     ctx.rule("C20.typestate", "Config -> load -> add in base constructors; subclasses add after the base constructor; same rc object "
              "to every model/routine; check() after construction", 25)
@@ -386,6 +411,7 @@ def run(ctx):
     repo = Repo()
     rule_config_class(ctx, repo)
     rule_cache(ctx, repo)
+    rule_update_atomic(ctx, repo)
     rule_ownership(ctx, repo)
     rule_options(ctx, repo)
     rule_constructors(ctx, repo)
